@@ -4,6 +4,7 @@ import json, sys
 pid = sys.argv[1]
 wt = sys.argv[2]
 n = sys.argv[3] if len(sys.argv) > 3 else '2'
+wave2 = len(sys.argv) > 4 and sys.argv[4] == 'wave2'
 for l in open('/verif/properties.jsonl'):
     p = json.loads(l)
     if p['id'] == pid:
@@ -22,4 +23,6 @@ Your job: produce {n} DIFFERENT, realistic changes to the dassh source (each a s
   (3) needs something SPECIFIC to manifest - a particular geometry (e.g. only with two ducts / only at a region change / only at low flow / only for unequal neighbouring meshes / only when a boundary falls inside a cell), a particular multi-step sequence, an unusual but valid input, or a particular order of operations - NOT something that every ordinary run would expose at once (e.g. do not simply zero a term).
 For each change also write a small demonstration program `demo.py` (plain Python, runnable as `cd {wt} && /venv/bin/python <path>/demo.py`, exit code 0 = property holds, 1 = property violated, printing what it measured) that FAILS with the change applied and PASSES on the unchanged worktree. Build inputs programmatically (write an input file + a user power CSV into a temp dir and use `dassh.DASSH_Input(path)` / `dassh.Reactor(inp)` / `reactor.temperature_sweep()`, or construct `dassh.RoddedRegion`, `dassh.Core`, etc. directly; look at the tests/ directory for usage patterns; constant-property materials `sodium_se2anl_425` and `ht9_se2anl_425` exist; a user power CSV has rows `asm_id,component(1 pins/2 duct/3 coolant),z_lo,z_hi,item_index,coeff0[,coeff1,...]` in W/m with z in m; the assignment line looks like `name = ring, pos, pos, FLOWRATE=1.0`; no network, no scipy).
 
-Deliver, under {wt}/_mutants/<k>/ for k = 1..{n}: `patch.diff` (output of `git -C {wt} diff` with ONLY that change applied to the source under dassh/, no test files), `demo.py`, and `notes.md` (which lines changed and why it breaks the property, what specific condition is needed for it to manifest, the test-suite summary line before and after, the demo output with and without the change). Before finishing, leave the worktree source UNMODIFIED (git -C {wt} checkout -- dassh) so only the _mutants directory remains. Do not commit. Reply with a short summary of each mutant.""")
+Deliver, under {wt}/_mutants/<k>/ for k = 1..{n}: `patch.diff` (output of `git -C {wt} diff` with ONLY that change applied to the source under dassh/, no test files), `demo.py`, and `notes.md` (which lines changed and why it breaks the property, what specific condition is needed for it to manifest, the test-suite summary line before and after, the demo output with and without the change). Before finishing, leave the worktree source UNMODIFIED (git -C {wt} checkout -- dassh) so only the _mutants directory remains. Do not commit. Reply with a short summary of each mutant.""" + ("""
+
+Diversity: make the changes differ from one another in MECHANISM and FILE (not three index slips in one function). Look beyond the most obvious function for this property: set-up time code (reader, Reactor/Core/Assembly construction, clone/copy logic, caches and memoised values, unit handling), rarely used but valid options and geometries, multi-assembly / multi-region / multi-time-point interactions, and state carried from one step or one call to the next.""" if wave2 else ''))
